@@ -7,7 +7,7 @@ CONSTANTS p = 37
  xneg = TRUE
  fam = "B12"
  n2 = 1417
- CMax = 36
+ CMax = 12
 SPECIFICATION Spec
 INVARIANT Check
 CHECK_DEADLOCK FALSE
